@@ -1535,6 +1535,12 @@ func (c *Conn) sendPending(id uint32) error {
 
 		err := c.flushData(id, body, end)
 
+		// With the Ctx still held: closing goes through the caller's Request,
+		// which is the caller's again the moment the Ctx is given up.
+		if err == nil && end {
+			c.closeBodyStream(pb)
+		}
+
 		pb.ctx.release()
 
 		if err != nil {
@@ -1542,7 +1548,6 @@ func (c *Conn) sendPending(id uint32) error {
 		}
 
 		if end {
-			c.closeBodyStream(pb)
 			return nil
 		}
 	}
